@@ -254,7 +254,7 @@ func genOp(t *rapid.T, cfg simCfg, p genProfile, depth int) Op {
 	case "fetch":
 		op.D = rapid.IntRange(0, 3).Draw(t, "fetchidx")
 		if p.hostileFetch {
-			op.V = weighted(t, "fetchvariant", []int{0, 1, 2}, []int{2, 2, 1})
+			op.V = weighted(t, "fetchvariant", []int{0, 1, 2, 3}, []int{2, 2, 1, 1})
 		}
 	case "time":
 		op.N = rapid.IntRange(1, 50).Draw(t, "ticks")
@@ -285,9 +285,9 @@ func genCase(t *rapid.T, p genProfile) simCase {
 		// a proposal lost in transit gets votes, is fetched (possibly with forged lists) and committed
 		full := fullMask(cfg.N)
 		seq := []Op{
-			{K: "ph", NS: true, P: rapid.IntRange(0, cfg.N-1).Draw(t, "fc-proposer"), D: rapid.IntRange(0, 3).Draw(t, "fc-data"), V: rapid.SampledFrom([]int{phFresh, phFresh, phAltNext}).Draw(t, "fc-phv")},
+			{K: "ph", NS: true, P: rapid.IntRange(0, cfg.N-1).Draw(t, "fc-proposer"), D: rapid.IntRange(0, 3).Draw(t, "fc-data"), V: rapid.SampledFrom([]int{phFresh, phFresh, phAltNext, phWrongPrev}).Draw(t, "fc-phv")},
 			{K: "vote", Kind: 0, T: []VT{{T: 50, S: full}}},
-			{K: "fetch", D: 99, V: weighted(t, "fc-variant", []int{0, 1, 2}, []int{1, 3, 2})},
+			{K: "fetch", D: 99, V: weighted(t, "fc-variant", []int{0, 1, 2, 3}, []int{2, 3, 2, 2})},
 			{K: "vote", Kind: 1, T: []VT{{T: 50, S: full}}},
 		}
 		at := rapid.IntRange(0, len(ops)).Draw(t, "fc-at")
